@@ -167,13 +167,13 @@ theorem intTok_natStr (n : Nat) (u : Bool) (l : Nat) : intTok (natStr n) u l = s
     rw [if_neg h1, if_neg (natStr_head_ne_zero n h), digitsVal_natStr]
     simp [h]
 
-theorem lexNum_int (n : Nat) (u : Bool) (l : Nat) (hl : l ≤ 2) (rest : Str) (hr : safeEnd rest = true) :
-    lexNum (natStr n ++ (sfxStr u l ++ rest)) = some (.int n (decide (n ≠ 0)) u l, rest) := by
+theorem lexNumRaw_int (n : Nat) (u : Bool) (l : Nat) (hl : l ≤ 2) (rest : Str) (hr : safeEnd rest = true) :
+    lexNumRaw (natStr n ++ (sfxStr u l ++ rest)) = some (.int n (decide (n ≠ 0)) u l, rest) := by
   have hnd : NoDigitHead (sfxStr u l ++ rest) := by
     have hl' : l = 0 ∨ l = 1 ∨ l = 2 := by omega
     rcases hl' with h | h | h <;> subst h <;> cases u <;>
       simp [sfxStr, List.replicate, NoDigitHead] <;> first | exact safeEnd_noDigit hr | decide
-  unfold lexNum
+  unfold lexNumRaw
   simp only [spanDigits_append (natStr_allDigits n) hnd]
   have key := lexIntSuffix_sfx (natStr n) u l hl rest hr
   rw [intTok_natStr] at key
@@ -219,19 +219,19 @@ theorem lexExp_exp (digs : Str) (nfrac : Nat) (neg : Bool) {ex : Str} (hex : All
   · simp only [lexExp, if_true, true_or, hs, hne, if_false]
     exact lexFSuf_safe _ _ hr
 
-theorem lexNum_frac {ip fp : Str} (hip : AllDigits ip) (hfp : AllDigits fp) {rest : Str} (hr : safeEnd rest = true) :
-    lexNum (ip ++ '.' :: (fp ++ rest)) = some (.flt (digitsVal (ip ++ fp)) (-(fp.length : Int)) .none, rest) := by
-  unfold lexNum
+theorem lexNumRaw_frac {ip fp : Str} (hip : AllDigits ip) (hfp : AllDigits fp) {rest : Str} (hr : safeEnd rest = true) :
+    lexNumRaw (ip ++ '.' :: (fp ++ rest)) = some (.flt (digitsVal (ip ++ fp)) (-(fp.length : Int)) .none, rest) := by
+  unfold lexNumRaw
   have h1 : spanDigits (ip ++ '.' :: (fp ++ rest)) = (ip, '.' :: (fp ++ rest)) :=
     spanDigits_append hip (by simp [NoDigitHead])
   simp only [h1, if_true, spanDigits_append hfp (safeEnd_noDigit hr)]
   exact lexExp_noexp _ _ hr
 
-theorem lexNum_frac_exp {ip fp ex : Str} (hip : AllDigits ip) (hfp : AllDigits fp) (neg : Bool)
+theorem lexNumRaw_frac_exp {ip fp ex : Str} (hip : AllDigits ip) (hfp : AllDigits fp) (neg : Bool)
     (hex : AllDigits ex) (hne : ex ≠ []) {rest : Str} (hr : safeEnd rest = true) :
-    lexNum (ip ++ '.' :: (fp ++ 'e' :: (if neg then '-' else '+') :: (ex ++ rest))) =
+    lexNumRaw (ip ++ '.' :: (fp ++ 'e' :: (if neg then '-' else '+') :: (ex ++ rest))) =
       some (.flt (digitsVal (ip ++ fp)) ((if neg then -(digitsVal ex : Int) else (digitsVal ex : Int)) - fp.length) .none, rest) := by
-  unfold lexNum
+  unfold lexNumRaw
   have h1 : spanDigits (ip ++ '.' :: (fp ++ 'e' :: (if neg then '-' else '+') :: (ex ++ rest))) =
       (ip, '.' :: (fp ++ 'e' :: (if neg then '-' else '+') :: (ex ++ rest))) :=
     spanDigits_append hip (by simp [NoDigitHead])
@@ -241,16 +241,132 @@ theorem lexNum_frac_exp {ip fp ex : Str} (hip : AllDigits ip) (hfp : AllDigits f
   simp only [h1, if_true, h2]
   exact lexExp_exp _ _ neg hex hne hr
 
-theorem lexNum_int_exp {ip ex : Str} (hip : AllDigits ip) (neg : Bool)
+theorem lexNumRaw_int_exp {ip ex : Str} (hip : AllDigits ip) (neg : Bool)
     (hex : AllDigits ex) (hne : ex ≠ []) {rest : Str} (hr : safeEnd rest = true) :
-    lexNum (ip ++ 'e' :: (if neg then '-' else '+') :: (ex ++ rest)) =
+    lexNumRaw (ip ++ 'e' :: (if neg then '-' else '+') :: (ex ++ rest)) =
       some (.flt (digitsVal ip) ((if neg then -(digitsVal ex : Int) else (digitsVal ex : Int)) - (0 : Nat)) .none, rest) := by
-  unfold lexNum
+  unfold lexNumRaw
   have h1 : spanDigits (ip ++ 'e' :: (if neg then '-' else '+') :: (ex ++ rest)) =
       (ip, 'e' :: (if neg then '-' else '+') :: (ex ++ rest)) :=
     spanDigits_append hip (by simp [NoDigitHead])
   simp only [h1, show ('e' : Char) ≠ '.' by decide, if_false, true_or, if_true]
   exact lexExp_exp _ _ neg hex hne hr
+
+
+/-! ### preprocessing numbers -/
+
+theorem spanPP_safe {rest : Str} (hr : safeEnd rest = true) : spanPP false rest = ([], rest) := by
+  cases rest with
+  | nil => rfl
+  | cons c r =>
+    have : (isIdChar c || c = '.') = false := by simpa [safeEnd] using hr
+    simp [spanPP, this]
+
+theorem spanPP_append (b : Bool) (s rest : Str) (h : ppAll b s = true) :
+    spanPP b (s ++ rest) = (s ++ (spanPP (ppFlag b s) rest).1, (spanPP (ppFlag b s) rest).2) := by
+  induction s generalizing b with
+  | nil => simp [ppFlag]
+  | cons c cs ih =>
+    simp only [ppAll] at h
+    simp only [List.cons_append, spanPP, ppFlag]
+    cases hA : (isIdChar c || decide (c = '.')) with
+    | true =>
+      simp only [hA, if_true] at h ⊢
+      rw [ih _ h]
+    | false =>
+      simp only [hA, Bool.false_eq_true, if_false] at h ⊢
+      cases hB : (b && (decide (c = '+') || decide (c = '-'))) with
+      | true =>
+        simp only [hB, if_true] at h ⊢
+        rw [ih _ h]
+      | false => simp [hB] at h
+
+theorem ppAll_append (b : Bool) (s t : Str) : ppAll b (s ++ t) = (ppAll b s && ppAll (ppFlag b s) t) := by
+  induction s generalizing b with
+  | nil => simp [ppAll, ppFlag]
+  | cons c cs ih =>
+    simp only [List.cons_append, ppAll, ppFlag]
+    split
+    · exact ih _
+    · split
+      · exact ih _
+      · simp
+
+theorem ppFlag_append (b : Bool) (s t : Str) (h : ppAll b s = true) : ppFlag b (s ++ t) = ppFlag (ppFlag b s) t := by
+  induction s generalizing b with
+  | nil => simp [ppFlag]
+  | cons c cs ih =>
+    simp only [ppAll] at h
+    simp only [List.cons_append, ppFlag]
+    split
+    · rename_i h1; rw [if_pos h1] at h; exact ih _ h
+    · rename_i h1; rw [if_neg h1] at h
+      split
+      · rename_i h2; rw [if_pos h2] at h; exact ih _ h
+      · rename_i h2; rw [if_neg h2] at h; cases h
+
+theorem digit_isIdChar {c : Char} (h : c.isDigit = true) : isIdChar c = true := by
+  simp [isIdChar, Char.isAlphanum, h]
+
+theorem digit_not_e {c : Char} (h : c.isDigit = true) : (c = 'e' || c = 'E') = false := by
+  have h1 : c ≠ 'e' := by intro e; subst e; revert h; decide
+  have h2 : c ≠ 'E' := by intro e; subst e; revert h; decide
+  simp [h1, h2]
+
+theorem ppAll_digits (b : Bool) {ds : Str} (h : AllDigits ds) : ppAll b ds = true := by
+  induction ds generalizing b with
+  | nil => rfl
+  | cons c cs ih =>
+    have hc := h c List.mem_cons_self
+    simp only [ppAll, digit_isIdChar hc, Bool.true_or, if_true]
+    exact ih _ (fun x hx => h x (List.mem_cons_of_mem _ hx))
+
+theorem ppFlag_digits (b : Bool) {ds : Str} (h : AllDigits ds) (hne : ds ≠ []) : ppFlag b ds = false := by
+  induction ds generalizing b with
+  | nil => exact absurd rfl hne
+  | cons c cs ih =>
+    have hc := h c List.mem_cons_self
+    simp only [ppFlag, digit_isIdChar hc, Bool.true_or, if_true, digit_not_e hc]
+    cases cs with
+    | nil => rfl
+    | cons d ds => exact ih _ (fun x hx => h x (List.mem_cons_of_mem _ hx)) (by simp)
+
+/-- A text `s` that is one whole preprocessing number, followed by something that cannot continue it. -/
+theorem lexNum_of_raw {s rest : Str} {t : Tok} (hpp : ppAll false s = true) (hfl : ppFlag false s = false)
+    (hr : safeEnd rest = true) (h : lexNumRaw s = some (t, [])) : lexNum (s ++ rest) = some (t, rest) := by
+  unfold lexNum lexNumTok
+  rw [spanPP_append false s rest hpp, hfl, spanPP_safe hr]
+  simp only [List.append_nil, h]
+
+theorem sfxStr_pp (u : Bool) (l : Nat) (hl : l ≤ 2) : ppAll false (sfxStr u l) = true ∧ ppFlag false (sfxStr u l) = false := by
+  have hl' : l = 0 ∨ l = 1 ∨ l = 2 := by omega
+  rcases hl' with h | h | h <;> subst h <;> cases u <;> decide
+
+theorem lexNum_int (n : Nat) (u : Bool) (l : Nat) (hl : l ≤ 2) (rest : Str) (hr : safeEnd rest = true) :
+    lexNum (natStr n ++ (sfxStr u l ++ rest)) = some (.int n (decide (n ≠ 0)) u l, rest) := by
+  have hraw := lexNumRaw_int n u l hl [] rfl
+  rw [List.append_nil] at hraw
+  rw [← List.append_assoc]
+  apply lexNum_of_raw _ _ hr hraw
+  · rw [ppAll_append, ppAll_digits _ (natStr_allDigits n), ppFlag_digits _ (natStr_allDigits n) (natStr_ne_nil n)]
+    simp [(sfxStr_pp u l hl).1]
+  · rw [ppFlag_append _ _ _ (ppAll_digits _ (natStr_allDigits n)), ppFlag_digits _ (natStr_allDigits n) (natStr_ne_nil n)]
+    exact (sfxStr_pp u l hl).2
+
+theorem lexNum_frac {ip fp : Str} (hip : AllDigits ip) (hfp : AllDigits fp) (hne : fp ≠ []) {rest : Str}
+    (hr : safeEnd rest = true) :
+    lexNum (ip ++ '.' :: (fp ++ rest)) = some (.flt (digitsVal (ip ++ fp)) (-(fp.length : Int)) .none, rest) := by
+  have hraw := lexNumRaw_frac hip hfp (rest := []) rfl
+  rw [List.append_nil] at hraw
+  have e : ip ++ '.' :: (fp ++ rest) = (ip ++ '.' :: fp) ++ rest := by simp
+  rw [e]
+  apply lexNum_of_raw _ _ hr hraw
+  · rw [ppAll_append, ppAll_digits _ hip]
+    simp only [Bool.true_and, ppAll]
+    exact ppAll_digits _ hfp
+  · rw [ppFlag_append _ _ _ (ppAll_digits _ hip)]
+    simp only [ppFlag]
+    exact ppFlag_digits _ hfp hne
 
 /-! ### the token stream -/
 
